@@ -14,6 +14,12 @@
     A schedule is a list of stream ids; each occurrence gives that stream's task its next block.
     The only state the tasks share is the host's response cache (and the handlers' own state).
 
+    Third part: ONE connection and a HISTORY of requests that carry bodies ([conn_loop]): on HTTP/1 the next
+    request starts where the declared body of this one ends — the handler reads all, part or nothing of it, the
+    repaired loop (fix dfe4d54, [Http1Body::drain]) discards the rest; [drain = false] is the loop before that
+    repair.  On HTTP/2 every request is its own stream.  [utils::get_body_length_request] decides which methods
+    have a declared body at all.
+
     Not modelled (behaviour of the h2 / rustls crates): HPACK, flow control, frame scheduling, TLS
     records, ALPN negotiation itself.  [h2_refuses] transcribes the one check of the h2 crate that
     decides whether a response head is sent at all (h2 0.4 proto/streams/send.rs [check_headers]);
@@ -184,6 +190,75 @@ Section Send.
     match o with Ok w => Ok (drop_body w) | Err e => Err e | Panic => Panic end.
 End Send.
 
+(** ---------------------------------------------------------------------------------------------
+    one connection, a HISTORY of requests that carry bodies: [handle_connection]'s request loop
+    --------------------------------------------------------------------------------------------- *)
+(** HTTP/1: the next request starts where the body of this one ends.  HTTP/2: every request is its own stream (and
+    its own task); what is left of a request body goes away with the stream. *)
+Inductive cst :=
+| COpen                 (** the next request is read from the start of the client's next message *)
+| CStray (n : N)        (** HTTP/1: [n] bytes of an earlier message are still in front of the next request line *)
+| CClosed.              (** HTTP/1: the server closed the connection (or its task panicked) *)
+
+(** [utils::get_body_length_request]: the [content-length] of these methods is not looked at (GET, HEAD, OPTIONS;
+    CONNECT and TRACE are not in the model's method type) *)
+Definition pr_no_request_body (m : N) : bool := (m =? M_GET) || (m =? M_HEAD) || (m =? M_OPTIONS).
+
+Section ConnLoop.
+  Variable S Q : Type.
+  (** layer 4 + [send] for one request: protocol, TLS?, application state (caches, handler state), clock *)
+  Variable ans : proto -> bool -> S -> N -> Q -> S * outcome wreply.
+  Variable q_method : Q -> N.
+  Variable q_len : Q -> N.              (** bytes the client sends after the head = the [content-length] it announces *)
+  Variable q_early : Q -> N.            (** HTTP/1: how many of them arrive in the same read as the head (segmentation: external) *)
+  Variable wants : S -> Q -> option N.  (** [Some l]: a handler is run for this request and calls [read_to_bytes(l)] *)
+
+  (** the HTTP/1 connection after the response was written.  [Http1Body::new(reader, early bytes, declared)]; the
+      handler takes [min declared l] (first the early bytes, then the connection); the early bytes are dropped with
+      the body object.  [drain] (the repair dfe4d54, [Http1Body::drain]): the rest of the DECLARED body is read and
+      discarded; the client has sent it, so this succeeds.  Before the repair it stayed on the connection. *)
+  Definition h1_after (drain : bool) (s : S) (q : Q) : cst :=
+    let declared := if pr_no_request_body (q_method q) then 0 else q_len q in
+    let early := N.min (q_early q) (q_len q) in
+    let taken := match wants s q with Some l => N.min declared l | None => 0 end in
+    let gone := N.max early taken in
+    let gone' := if drain then N.max gone declared else gone in
+    if gone' <? q_len q then CStray (q_len q - gone') else COpen.
+
+  (** the request loop.  [None]: the request is never answered — on HTTP/1 the stray bytes are read as the start of
+      the next request line ([read::request] fails or reads garbage; this model does not say which) and nothing
+      written afterwards belongs to a request of the history. *)
+  Fixpoint conn_loop (p : proto) (drain secure : bool) (s : S) (cs : cst) (now dt : N) (qs : list Q)
+      : list (option (outcome wreply)) :=
+    match qs with
+    | [] => []
+    | q :: rest =>
+        match cs with
+        | COpen =>
+            let '(s', w) := ans p secure s now q in
+            let cs' := match p with
+                       | H2 => COpen                              (* own stream, own task: a panic resets that stream only *)
+                       | H1 => match w with
+                               | Ok _ => h1_after drain s q
+                               | _ => CClosed                     (* the connection's task panicked *)
+                               end
+                       end in
+            Some w :: conn_loop p drain secure s' cs' (now + dt) dt rest
+        | _ => None :: conn_loop p drain secure s CClosed (now + dt) dt rest
+        end
+    end.
+
+  (** the specification's view: every request is answered, by the application in the state its predecessors left *)
+  Fixpoint serve_seq (p : proto) (secure : bool) (s : S) (now dt : N) (qs : list Q) : list (outcome wreply) :=
+    match qs with
+    | [] => []
+    | q :: rest => let '(s', w) := ans p secure s now q in w :: serve_seq p secure s' (now + dt) dt rest
+    end.
+
+  (** the requests whose body the model's HTTP/1 framing covers: bytes are only sent where a length is honoured *)
+  Definition body_declared (q : Q) : Prop := pr_no_request_body (q_method q) = true -> q_len q = 0.
+End ConnLoop.
+
 (** the contract of the Package chain under which the protocols agree: what it does to end-to-end headers does not
     depend on the version or on connection-level headers of the head it is given *)
 Definition pkg_oblivious (pkg : N -> headers -> headers) : Prop :=
@@ -207,6 +282,9 @@ Definition run_pkg_op (o : pkg_op) (h : headers) : headers :=
 (** the chain, already in call order (priority descending — [add_sorted_list!], C16) *)
 Definition pkg_menu (ops : list pkg_op) (_ : N) (h : headers) : headers :=
   fold_left (fun h o => run_pkg_op o h) ops h.
+
+(** a request and its body on the wire: [b_len] bytes follow the head, [b_early] of them in the same read *)
+Record breq := mkBreq { b_req : request; b_len : N; b_early : N }.
 
 (** ---------------------------------------------------------------------------------------------
     layer 4 above [send]: one request on a host, any cache state
@@ -380,6 +458,19 @@ Section Answer.
   Definition stream_wire (o : N * request * reply) : N * outcome wreply :=
     let '(sid, r0, rp) := o in
     (sid, send checked error_page pkg H2 true alt (rq_method r0) (sanitize r0) (l4_resp r0 rp)).
+
+  (** ---- a history of requests with bodies on ONE connection of either protocol ---- *)
+  (** which handler reads how much of a request body: external ([Some l] = [read_to_bytes(l)] is called) *)
+  Variable wants : state hstate -> request -> option N.
+  Definition ans_step (p : proto) (secure : bool) (st : state hstate) (now : N) (b : breq) : state hstate * outcome wreply :=
+    let '(st', rp, _) := serveX st now (b_req b) in
+    (st', send checked error_page pkg p secure alt (rq_method (b_req b)) (sanitize (b_req b)) (l4_resp (b_req b) rp)).
+  Definition conn_hist (p : proto) (drain secure : bool) (st : state hstate) (now dt : N) (bs : list breq)
+      : list (option (outcome wreply)) :=
+    conn_loop (state hstate) breq ans_step (fun b => rq_method (b_req b)) b_len b_early (fun st b => wants st (b_req b))
+              p drain secure st COpen now dt bs.
+  Definition answers (p : proto) (secure : bool) (st : state hstate) (now dt : N) (bs : list breq) : list (outcome wreply) :=
+    serve_seq (state hstate) breq ans_step p secure st now dt bs.
 End Answer.
 
 (** ---------------------------------------------------------------------------------------------
@@ -411,14 +502,20 @@ Definition d_proto (x : xval) : option proto :=
 Definition sd_of (path_ok : bool) (range : option bytes) : outcome (option (N * N)) :=
   if path_ok then sanitize_range range else Err 400.
 
-(** one exchange: (L method (L [range]) path_ok l4) *)
-Record exch := mkEx { ex_method : N; ex_range : option bytes; ex_path_ok : bool; ex_l4 : resp }.
+(** one exchange: (L method (L [range]) path_ok l4) or (L method (L [range]) path_ok l4 body_len (L [want]))
+    — [body_len] bytes of request body follow the head; [want] = [l]: the handler that answers reads [read_to_bytes(l)] *)
+Record exch := mkEx { ex_method : N; ex_range : option bytes; ex_path_ok : bool; ex_l4 : resp; ex_blen : N; ex_want : option N }.
 Definition d_exch (x : xval) : option exch :=
   match x with
   | XL [XB m; rg; po; l4] =>
       match d_option d_B rg, d_bool po, d_resp l4 with
-      | Some rg', Some po', Some r => Some (mkEx (method_of_bytes m) rg' po' r)
+      | Some rg', Some po', Some r => Some (mkEx (method_of_bytes m) rg' po' r 0 None)
       | _, _, _ => None
+      end
+  | XL [XB m; rg; po; l4; XN bl; w] =>
+      match d_option d_B rg, d_bool po, d_resp l4, d_option d_N w with
+      | Some rg', Some po', Some r, Some w' => Some (mkEx (method_of_bytes m) rg' po' r bl w')
+      | _, _, _, _ => None
       end
   | _ => None
   end.
@@ -439,19 +536,46 @@ Definition send_ex (checked : bool) (ops : list pkg_op) (alt : option bytes) (e4
   send checked (fun _ => e416) (pkg_menu ops) p secure alt (ex_method e)
        (sd_of (ex_path_ok e) (ex_range e)) (ex_l4 e).
 
-(** "proto.pair": every exchange through HTTP/1.1 (TLS or plain, [secure1]) and through HTTP/2 (TLS)
-    input (L checked cfg pkg_ops (L [alt]) err416 (L exchange ...) secure1) *)
-Definition run_pair (x : xval) : xval :=
+(** the history of a case on ONE connection of protocol [p]: the connection loop over the observed layer-4 responses
+    (the application state is in the observations: [unit] here).  The harness's HTTP/1 client writes head and body in one
+    piece; how much of the body arrives with the head is not observable — and, with [drain], decides nothing: 0. *)
+Definition ex_ans (checked : bool) (ops : list pkg_op) (alt : option bytes) (e416 : resp)
+    (p : proto) (secure : bool) (_ : unit) (_ : N) (e : exch) : unit * outcome wreply :=
+  (tt, send_ex checked ops alt e416 p secure e).
+Definition pair_hist (checked : bool) (ops : list pkg_op) (alt : option bytes) (e416 : resp)
+    (p : proto) (drain secure : bool) (exs : list exch) : list (option (outcome wreply)) :=
+  conn_loop unit exch (ex_ans checked ops alt e416) ex_method ex_blen (fun _ => 0) (fun _ e => ex_want e)
+            p drain secure tt COpen 0 1 exs.
+
+Fixpoint first_none {A} (i : N) (l : list (option A)) : option N :=
+  match l with
+  | [] => None
+  | None :: _ => Some i
+  | Some _ :: r => first_none (i + 1) r
+  end.
+Definition x_slot (o : option (outcome wreply)) : xval :=
+  match o with Some w => x_outcome x_wreply w | None => bad_input end.
+
+(** "proto.pair": the history over one HTTP/1.1 connection (TLS or plain, [secure1]) and over one HTTP/2 connection (TLS)
+    input (L checked cfg pkg_ops (L [alt]) err416 (L exchange ...) secure1)
+    output (L (L wire_h1 wire_h2) ...), or (L (N 93) i) when request i is not answered on one of the connections *)
+Definition run_pair_gen (drain : bool) (x : xval) : xval :=
   match x, d_case x with
   | XL [_; _; _; _; _; _; s1], Some (checked, ops, alt, e416, exs) =>
       match d_bool s1 with
       | Some secure1 =>
-          XL (map (fun e => XL [x_outcome x_wreply (send_ex checked ops alt e416 H1 secure1 e);
-                                x_outcome x_wreply (send_ex checked ops alt e416 H2 true e)]) exs)
+          let h1 := pair_hist checked ops alt e416 H1 drain secure1 exs in
+          let h2 := pair_hist checked ops alt e416 H2 drain true exs in
+          match first_none 0 h1, first_none 0 h2 with
+          | None, None => XL (map (fun ab => XL [x_slot (fst ab); x_slot (snd ab)]) (combine h1 h2))
+          | Some i, _ => XL [XN 93; XN i]
+          | None, Some i => XL [XN 93; XN i]
+          end
       | None => bad_input
       end
   | _, _ => bad_input
   end.
+Definition run_pair : xval -> xval := run_pair_gen true.
 
 (** spec component of "proto.pair": the normalised answer both protocols must give, computed without any
     protocol arm — the range specification of C09 on the layer-4 response, the package menu on the
@@ -480,11 +604,23 @@ Definition run_pair_spec (x : xval) : xval :=
   | None => bad_input
   end.
 
-(** "proto.answered": is every request of a history answered on HTTP/1.1 / on HTTP/2?  Only used for the replayed
-    witness of the known finding h1-unread-request-body (C08's subject: a request body that no handler reads stays on
-    the HTTP/1 connection and is parsed as the next request): TODAY's behaviour is (no, yes); the specification is (yes, yes). *)
-Definition run_answered_today (x : xval) : xval :=
-  match d_case x with Some _ => XL [XN 0; XN 1] | None => bad_input end.
+(** "proto.answered": is every request of the history answered with a response on the HTTP/1.1 / on the HTTP/2
+    connection?  (L h1 h2).  The specification is (yes, yes) for every history.  [run_answered_gen false] is the code
+    before the repair dfe4d54 (an unread request body stays on the HTTP/1 connection): (no, yes) for the witness. *)
+Definition is_resp (o : option (outcome wreply)) : bool :=
+  match o with Some (Ok (WResp _)) => true | _ => false end.
+Definition run_answered_gen (drain : bool) (x : xval) : xval :=
+  match x, d_case x with
+  | XL [_; _; _; _; _; _; s1], Some (checked, ops, alt, e416, exs) =>
+      match d_bool s1 with
+      | Some secure1 =>
+          XL [x_bool (forallb is_resp (pair_hist checked ops alt e416 H1 drain secure1 exs));
+              x_bool (forallb is_resp (pair_hist checked ops alt e416 H2 drain true exs))]
+      | None => bad_input
+      end
+  | _, _ => bad_input
+  end.
+Definition run_answered : xval -> xval := run_answered_gen true.
 Definition run_answered_spec (x : xval) : xval :=
   match d_case x with Some _ => XL [XN 1; XN 1] | None => bad_input end.
 
@@ -557,7 +693,7 @@ Definition protocols_table : list (bytes * (xval -> xval)) :=
   [ (B "proto.pair", run_pair);
     (B "proto.server", run_pair);      (* the same exchanges through complete servers (RunConfig::execute) *)
     (B "proto.pair_spec", run_pair_spec);
-    (B "proto.answered", run_answered_today);
+    (B "proto.answered", run_answered);
     (B "proto.answered_spec", run_answered_spec);
     (B "proto.burst", run_burst H2);
     (B "proto.burst_spec", run_burst_spec H2);
